@@ -801,8 +801,17 @@ func (e *Engine) solveOne(i int, o *Obligation, workdir string, timeout int, tho
 				}(c)
 			}
 		}
+		var grace <-chan time.Time
 		for k := 0; k < n; k++ {
-			r := <-ch
+			var r solverResult
+			select {
+			case r = <-ch:
+			case <-grace:
+				// thorough: after the first definitive answer the other solvers get 15 s to agree or disagree
+				cancel()
+				grace = nil
+				r = <-ch
+			}
 			if r.answer == "cancelled" {
 				continue
 			}
@@ -813,11 +822,17 @@ func (e *Engine) solveOne(i int, o *Obligation, workdir string, timeout int, tho
 				if !thorough {
 					break
 				}
+				if grace == nil {
+					grace = time.After(15 * time.Second)
+				}
 			}
 			if r.answer == "sat" && satBy == nil {
 				satBy = &rr
 				if !thorough {
 					break
+				}
+				if grace == nil {
+					grace = time.After(15 * time.Second)
 				}
 			}
 		}
